@@ -15,7 +15,8 @@ CASE_TIMEOUT = 0.3
 MODEL_CASE_TIMEOUT = 3.0
 RULE = ("every line of generated programs and of the sample set rendered in random spellings: letter case per word, ? for PRINT, ' for REM, "
         "GO TO / GO SUB, dropped LET, =< and =>, blanks inside two-character relational operators, added / doubled / removed blanks and "
-        "tabs at non-alphanumeric boundaries, keywords glued to a following number; variants must give the same AST (modulo columns), the "
+        "tabs at non-alphanumeric boundaries, keywords glued to a following number, words run together where the leftmost-reserved-word rule "
+        "gives the same words back (THENPRINT, IFNOTA, FORI); variants must give the same AST (modulo columns), the "
         "same listing (modulo LET and the remark marker) and whole programs the same transcript; non-trivial = a variant that differs from "
         "the original in at least 2 places; distinct = distinct (line, variant) pairs")
 ASSUMPTIONS = ["gluing a number to a following letter is not generated: an exponent letter there changes the literal (see DESIGN.md, finding on 1DX)"]
@@ -51,8 +52,52 @@ def segments(line):
     return out
 
 
+RESERVED = ["RESTORE", "DEFDBL", "DEFINT", "DEFSNG", "DEFSTR", "DELETE", "RETURN", "CLEAR", "ERASE", "GOSUB", "INPUT", "PRINT", "RENUM",
+            "TROFF", "WHILE", "CONT", "DATA", "ELSE", "GOTO", "NEXT", "LIST", "LOAD", "READ", "SAVE", "STEP", "STOP", "SWAP", "THEN", "TRON",
+            "WEND", "AND", "CLS", "DEF", "DIM", "END", "EQV", "FOR", "IMP", "LET", "MOD", "NEW", "NOT", "REM", "RUN", "XOR", "IF", "ON", "OR", "TO"]
+
+
+def split_run(run):
+    """the documented rule for a run of letters: split at the leftmost reserved word, the longest one where several start there"""
+    out = []
+    s = run.upper()
+    while True:
+        best = None
+        for w in RESERVED:
+            i = s.find(w)
+            if i >= 0 and (best is None or i < best[0]):
+                best = (i, w)
+        if best is None:
+            break
+        i, w = best
+        if i > 0:
+            out.append(s[:i])
+        out.append(w)
+        s = s[i + len(w):]
+    if s:
+        out.append(s)
+    return out
+
+
+def crunch(rng, s):
+    """run words together where the documented splitting rule gives the same words back"""
+    parts = re.findall(r"[A-Za-z]+|[ \t]+|[^A-Za-z \t]+", s)
+    out = []
+    for part in parts:
+        if (part[0].isalpha() and len(out) >= 2 and out[-1].strip() == "" and out[-2].isalpha()
+                and "REM" not in split_run(out[-2] + part) and "DATA" not in split_run(out[-2] + part) and rng.random() < 0.7
+                and split_run(out[-2] + part) == split_run(out[-2]) + split_run(part)):
+            out.pop()
+            out[-1] = out[-1] + part
+        else:
+            out.append(part)
+    return "".join(out)
+
+
 def vary_code(rng, code):
     s = code
+    if rng.random() < 0.35:
+        s = crunch(rng, s)
     if rng.random() < 0.5:
         s = re.sub(r"\bPRINT\b", "?", s)
     if rng.random() < 0.5:
